@@ -61,8 +61,6 @@ def one_ids_run(res, lab, rng, label):
     made_local: list = []
     made_remote: list = []
     errs = []
-    start = threading.Barrier(2 * T)
-
     def local(t):
         lab.sched.set_role(f"cl{t}")
         try:
@@ -85,13 +83,38 @@ def one_ids_run(res, lab, rng, label):
         except BaseException as e:  # noqa
             errs.append(repr(e))
 
+    # ... while something polls the gateway's status (which borrows an id for its answer)
+    polling = threading.Event()
+    polls = [0]
+
+    def poller():
+        lab.sched.set_role("poller")
+        try:
+            start.wait(10)
+        except threading.BrokenBarrierError:
+            return
+        while not polling.is_set():
+            try:
+                st = lab.gw.remote_status()
+                assert st.numchannels >= 0
+                polls[0] += 1
+            except BaseException as e:  # noqa
+                errs.append("remote_status: " + repr(e))
+                return
+
+    start = threading.Barrier(2 * T + 1)
     ths = [threading.Thread(target=local, args=(t,), daemon=True) for t in range(T)]
     ths += [threading.Thread(target=remote, args=(t,), daemon=True) for t in range(T)]
+    pt = threading.Thread(target=poller, daemon=True)
+    pt.start()
     for t in ths:
         t.start()
     for t in ths:
         t.join(20)
-    if any(t.is_alive() for t in ths):
+    polling.set()
+    pt.join(20)
+    res.count("status_polls_during_creation", polls[0])
+    if any(t.is_alive() for t in ths) or pt.is_alive():
         res.violation("channel-creation-hung", label)
         return
     if errs:
@@ -135,7 +158,9 @@ def run_ids(spec):
         if spec["kind"] == "ids":
             todo = [(None, None)] * spec["runs"]
         else:
-            lines = imodel.function_lines(gb.ChannelFactory.new, gb.Channel.__init__, gb.BaseGateway.newchannel)
+            from execnet import gateway as gwmod
+
+            lines = imodel.function_lines(gb.ChannelFactory.new, gb.Channel.__init__, gb.BaseGateway.newchannel, gwmod.Gateway.remote_status)
             res.info["sweep_lines"] = len(lines)
             todo = [(ln, k) for ln in lines for k in spec["ks"]]
         for i, (ln, k) in enumerate(todo):
